@@ -1,11 +1,14 @@
 #!/bin/bash
 # Runs every hand-made mutant in /verif/mutants against its target properties; writes mutants/RESULTS.txt
-cd /verif
+cd "$(dirname "$0")/.."
+export HERE="$PWD"
 python3 - <<'PY'
 import json, subprocess, sys
-meta = json.load(open('/verif/mutants/hand_mutants.json'))
+import os
+HERE = os.environ['HERE']
+meta = json.load(open(HERE + '/mutants/hand_mutants.json'))
 only = sys.argv[1:] 
-out = open('/verif/mutants/RESULTS.txt', 'a')
+out = open(HERE + '/mutants/RESULTS.txt', 'a')
 for name, props in meta.items():
     r = subprocess.run(['python3', 'tools/run_seeded.py', f'mutants/{name}.diff', *props, '--baseline'], stdout=subprocess.PIPE, stderr=subprocess.STDOUT, text=True)
     lines = [l for l in r.stdout.splitlines() if l.startswith(('baseline', 'C', 'patch', 'cannot'))]
